@@ -46,6 +46,17 @@ def cases(tier, seed):
             for (N, bs) in (((7, 3), (6, 6), (5, 8)) if q else ((7, 3), (6, 6), (5, 8), (16, 5), (9, 2))):
                 for r in range(2 if q else 4):
                     out.append(dict(kind="eval", env=env, n=rnd.choice([6, 8]), N=N, bs=bs, method=m, s=rnd.randrange(10**6), A=8 if "dihedral" in m else rnd.choice([2, 4, 8]), k=rnd.choice([3, 5])))
+    # envs whose constructor arguments change the dynamics or the objective, and envs whose reward is read from the rollout's
+    # final state: the evaluator's own env (not a default-constructed one) must define both the rollout and the reported value
+    single = ["greedy", "augment", "augment_dihedral_8"]
+    # (mTSP min-max is not run: its reward lives in the rollout state, the evaluators' re-scoring on the reset state raises KeyError - a crash, see DESIGN 9b/26)
+    extra_envs = [("mtsp", dict(cost_type="sum"), single),
+                  ("mdcpdp", dict(reward_mode="minsum", problem_mode="close"), single + ["sampling"]), ("mdcpdp", dict(reward_mode="minmax", problem_mode="open"), single + ["sampling"]),
+                  ("pdp", dict(start_depot=True), methods), ("sdvrp", {}, methods), ("svrp", {}, single + ["sampling"]), ("mtvrp", dict(preset="all"), methods), ("spctsp", {}, methods)]
+    for env, extra, ms in extra_envs:
+        for m in ms:
+            for (N, bs) in (((7, 3),) if q else ((7, 3), (6, 6), (5, 8))):
+                out.append(dict(kind="eval", env=env, extra=extra, n=rnd.choice([6, 8]), N=N, bs=bs, method=m, s=rnd.randrange(10**6), A=8 if "dihedral" in m else rnd.choice([2, 4, 8]), k=rnd.choice([3, 5])))
     for model, grid in (("pomo", ((3, 8), (5, 8), (4, 1))), ("symnco", ((0, 4), (4, 4), (3, 2), (5, 2), (6, 1), (4, 0)))):
         for (S, A) in grid:
             for env in ("tsp", "cvrp"):
